@@ -47,7 +47,7 @@ REAL = ['asyncssh endpoint (client or server role): connection, auth, kex, '
         'channel', 'PyCA']
 STUB = ['event loop + clock', 'TCP', 'executor', 'OS randomness',
         'RefPeer as injecting peer']
-PROBES = ['inject_prekex', 'inject_preauth', 'inject_postauth',
+PROBES = ['kbd_dialogue', 'inject_prekex', 'inject_preauth', 'inject_postauth',
           'ended_with_error', 'proceeded_as_baseline', 'strict_fatal',
           'unimplemented_reply', 'no_seq_reset', 'role_client', 'role_server',
           'pair_injection']
@@ -140,6 +140,14 @@ def gen_plan(rng):
                     'shape': rng.choice(SHAPES),
                     'rnd': rng.below(1 << 30)})
 
+    kbd = role == 'server' and rng.chance(35)
+
+    if kbd and rng.chance(60):
+        # the auth-method messages matter in this dialogue
+        inj[0]['t'] = rng.choice([60, 61, 61, 61, 50, 51, 52])
+        inj[0]['shape'] = rng.choice(['wellformed', 'wellformed', 'empty',
+                                      'trailing'])
+
     return {
         'drbg': rng.below(1 << 30),
         'profile': {'p_sched': rng.choice([0, 20, 60]),
@@ -148,8 +156,13 @@ def gen_plan(rng):
         'role': role,
         'strict': rng.chance(60),
         'seq_reset': not rng.chance(8),
-        'pos': rng.below(npos),
+        'pos': rng.below(npos + (2 if kbd else 0)),
         'inject': inj,
+        # server role: a keyboard-interactive attempt that fails comes first
+        # (challenge possibly produced asynchronously), then the password
+        'kbd': kbd, 'kbd_async': kbd and rng.chance(40),
+        # inject right after (instead of right before) own message `pos`
+        'after': rng.chance(25),
     }
 
 
@@ -202,6 +215,32 @@ class PhaseServer(RecServer):
         self.out['pw_checks'].append((username, password))
         return (username, password) == ('alice', 'pw-alice')
 
+    def kbdint_auth_supported(self):
+        return bool(self.out.get('kbd'))
+
+    def get_kbdint_challenge(self, username, lang, submethods):
+        def make():
+            self.out['kbd_outstanding'] = True
+            self.out['kbd_challenges'] += 1
+            return 'title', 'instr', '', [('answer?', False)]
+
+        if self.out.get('kbd_async'):
+            async def later():
+                await self.world.sim.app_event('kbd-challenge')
+                return make()
+
+            return later()
+
+        return make()
+
+    def validate_kbdint_response(self, username, responses):
+        if not self.out.get('kbd_outstanding'):
+            self.out['kbd_unsolicited'] += 1
+
+        self.out['kbd_outstanding'] = False
+        self.out['kbd_validated'].append(list(responses))
+        return list(responses) == ['yes']
+
     def auth_completed(self):
         self.out['auth_user'] = self.conn.get_extra_info('username')
 
@@ -247,7 +286,11 @@ def one_run(plan, inject, sched_seed, sched_replay):
            'client_auth_completed': 0, 'banner': 0, 'echo': b'',
            'peer_error': None, 'injected_at_epoch': None, 'unimpl': 0,
            'client_got': b'', 'connected': False, 'exit_status': None,
-           'client_exc': None, 'requests_outstanding': None}
+           'client_exc': None, 'requests_outstanding': None,
+           'kbd': plan.get('kbd', False),
+           'kbd_async': plan.get('kbd_async', False),
+           'kbd_outstanding': False, 'kbd_challenges': 0,
+           'kbd_unsolicited': 0, 'kbd_validated': []}
     owners = []
     rand = seams._urandom
 
@@ -273,11 +316,12 @@ def one_run(plan, inject, sched_seed, sched_replay):
 
         real_send = peer.send
 
-        def send(payload, **kwargs):
+        def send(payload, _only_inject=False, **kwargs):
             if inject and peer.count == plan['pos'] and \
                     out['injected_at_epoch'] is None:
                 out['injected_at_epoch'] = peer.kex_count
                 out['inject_authed'] = peer.authed
+                out['inject_index'] = len(peer.sent)
                 out['inject_outstanding'] = peer.saw_50 > 0
 
                 for inj in plan['inject']:
@@ -306,8 +350,27 @@ def one_run(plan, inject, sched_seed, sched_replay):
                     out.setdefault('injected', []).append((t, shape))
                     real_send(bytes([t]) + body, injected=True)
 
+            if _only_inject:
+                return
+
             peer.count += 1
             real_send(payload, **kwargs)
+
+        if plan.get('after'):
+            # same injection, placed right after own message `pos`
+            before_send = send
+
+            def send(payload, **kwargs):   # noqa: F811
+                if inject and peer.count == plan['pos'] and \
+                        out['injected_at_epoch'] is None:
+                    peer.count += 1
+                    real_send(payload, **kwargs)
+                    peer.count -= 1
+                    saved = peer.count
+                    before_send(b'', _only_inject=True)
+                    peer.count = saved + 1
+                else:
+                    before_send(payload, **kwargs)
 
         peer.send = send
         return peer
@@ -318,6 +381,27 @@ def one_run(plan, inject, sched_seed, sched_replay):
         await peer.handshake()
         peer.send(bytes([5]) + string(b'ssh-userauth'))
         await peer.expect(6)
+
+        if plan.get('kbd'):
+            peer.send(bytes([50]) + string(b'alice') +
+                      string(b'ssh-connection') +
+                      string(b'keyboard-interactive') + string(b'') +
+                      string(b''))
+
+            while True:
+                p = await peer.recv(skip=(2, 4, 3))
+
+                if p[0] == 60:
+                    peer.send(bytes([61]) + u32(1) + string(b'no'))
+                elif p[0] == 51:
+                    break
+                elif p[0] == 52:
+                    # (only reachable through an injected response)
+                    peer.authed = True
+                    break
+                elif p[0] not in (7, 53):
+                    raise PeerError('kbdint reply %d' % p[0])
+
         peer.send(bytes([50]) + string(b'alice') + string(b'ssh-connection')
                   + string(b'password') + boolean(False) +
                   string(b'pw-alice'))
@@ -575,6 +659,36 @@ def run_plan(plan, sched_seed=None, sched_replay=None):
         else:
             sim.probes['inject_postauth'] += 1
 
+        # phase as the asyncssh endpoint saw it: had it sent (server) or
+        # received (client) USERAUTH_SUCCESS before it *processed* the
+        # injected packet?  Its receive log is in processing order and holds
+        # every packet the peer sent, so the injected one is number
+        # inject_index among the received.
+        if not pre_kex and 'inject_index' in out:
+            for label, pkts in sorted(sim.pkts.items()):
+                conn_obj = sim.conns.get(label)
+
+                if conn_obj is None or \
+                        conn_obj.is_client() != (role == 'client'):
+                    continue
+
+                nrecv = 0
+                authed_then = False
+
+                for d, t, *_rest in pkts:
+                    if d == 'R':
+                        if nrecv == out['inject_index']:
+                            break
+
+                        nrecv += 1
+
+                        if t == 52 and role == 'client':
+                            authed_then = True
+                    elif d == 'S' and t == 52 and role == 'server':
+                        authed_then = True
+
+                out['inject_authed'] = authed_then
+
         same = outcome(out, role) == outcome(base, role)
         phase = 'prekex' if pre_kex else \
             'postauth' if out.get('inject_authed') else 'preauth'
@@ -658,7 +772,24 @@ def run_plan(plan, sched_seed=None, sched_replay=None):
         elif pending:
             sim.probes['success_with_request_outstanding'] += 1
 
+    if role == 'server' and out['kbd_unsolicited']:
+        world.violation(
+            'response-without-challenge',
+            'the server application was asked to validate a keyboard-'
+            'interactive response although no challenge was outstanding '
+            '(challenges %d, responses %r, injected %r)' %
+            (out['kbd_challenges'], out['kbd_validated'],
+             out.get('injected')), sig='kbd')
+
+    if out.get('kbd'):
+        sim.probes['kbd_dialogue'] += 1
+
     if role == 'server' and out['auth_user'] and \
+            ['yes'] in out['kbd_validated']:
+        # authenticated through an (injected) correct response: decided by
+        # the rule above
+        pass
+    elif role == 'server' and out['auth_user'] and \
             ('alice', 'pw-alice') not in out['pw_checks']:
         world.violation('auth-without-credential', 'server authenticated %r '
                         'without a valid password check' % out['auth_user'])
